@@ -35,7 +35,7 @@ ASSUMPTIONS = [
     "general Union types are outside the property's list of constructors and not generated",
 ]
 MIN_CLASSES = {
-    "quick": {"types:conforming": 2000, "types:defective": 2000, "types:defect-below-top": 1000, "missing:in-list": 100, "missing:in-dict": 100, "missing:under-meta": 100, "missing:control-valid": 100, "missing:nested-container": 100},
+    "quick": {"types:conforming": 2000, "types:defective": 2000, "types:defect-below-top": 1000, "types:value-is-the-declared-default": 1500, "missing:in-list": 100, "missing:in-dict": 100, "missing:under-meta": 100, "missing:control-valid": 100, "missing:nested-container": 100, "missing:node-attached-to-a-submitted-task": 200},
     "thorough": {"types:defect-below-top": 10000},
 }
 
@@ -84,6 +84,22 @@ def class_for(t):
     return _CLASSES[key]
 
 
+_NDEF = [0]
+
+
+def class_with_default(t, value, how):
+    """A fresh configuration class whose parameter `x` is declared with the given default"""
+    from experimaestro import Config, Param, field
+    from vx import dyn
+
+    _NDEF[0] += 1
+    name = f"TD{_NDEF[0]}"
+    default = value if how == "default" else field(default=value)
+    cls = type(name, (Config,), {"__annotations__": {"x": Param[pytype(t)]}, "x": default, "__module__": dyn.__name__, "__qualname__": name, "__xpmid__": f"vx.c15.{name.lower()}"})
+    setattr(dyn, name, cls)
+    return cls
+
+
 @st.composite
 def conforming(draw, t):
     """A blueprint-like value conforming to t (JSON-able)"""
@@ -128,6 +144,10 @@ def type_cases(draw):
     t = draw(type_exprs(3))
     v = draw(conforming(t))
     case = {"type": t, "value": v, "defect": None, "assign": draw(st.booleans())}
+    # the value may also be the *declared default* of the parameter, left untouched
+    how = draw(st.sampled_from(["given", "given", "given", "default", "default", "field-default"]))
+    if how != "given":
+        case["how"] = how
     if draw(st.booleans()):
         # positions at which a value of the wrong kind can be substituted
         positions = []
@@ -262,6 +282,9 @@ def coerce(x, t):
     return x
 
 
+_CLONES_OK = [False]  # set while a case whose value is the declared default is judged
+
+
 def equal(a, b):
     if isinstance(a, float) and isinstance(b, float):
         return (math.isnan(a) and math.isnan(b)) or (a == b and math.copysign(1, a) == math.copysign(1, b))
@@ -272,7 +295,8 @@ def equal(a, b):
     from experimaestro.core.objects import Config
 
     if isinstance(a, Config):
-        return a is b
+        # (a declared default is copied for every instance: same class, same values)
+        return a is b or (_CLONES_OK[0] and isinstance(b, Config) and type(a) is type(b) and a.__xpm__.values == b.__xpm__.values)
     if isinstance(a, int) and isinstance(b, int):
         return a == b  # a bool given to an int parameter is an int (True == 1)
     return type(a) is type(b) and a == b
@@ -291,7 +315,7 @@ def loosely_equal(stored, given, t):
     if t == "path":
         return str(stored) == str(given)
     if t == "cfg":
-        return stored is given
+        return equal(stored, given)
     if isinstance(stored, float) and isinstance(given, float) and math.isnan(stored) and math.isnan(given):
         return True
     try:
@@ -313,8 +337,12 @@ def prop_types(ctx, case):
         v = inject(v, defect["path"], defect["wrong"])
     value = materialise(v)
     raised = None
+    how = case.get("how", "given") if value is not None else "given"
+    _CLONES_OK[0] = how != "given"
     try:
-        if case["assign"]:
+        if how != "given":
+            o = class_with_default(t, value, how)()
+        elif case["assign"]:
             o = cls()
             o.x = value
         else:
@@ -324,6 +352,8 @@ def prop_types(ctx, case):
         raised = e
     tname = repr(t)
     labels = ["types:conforming" if defect is None else "types:defective"]
+    if how != "given":
+        labels.append("types:value-is-the-declared-default")
     if defect is not None and defect["path"]:
         labels.append("types:defect-below-top")
     if raised is None:
@@ -388,6 +418,9 @@ def missing_cases(draw):
         "siblings": draw(st.integers(0, 2)),
         "index": draw(st.integers(0, 2)),
         "v": draw(st.integers(0, 10**6)),
+        # the incomplete configuration was first attached to an already submitted task
+        # (copy_dependencies: "needs what that task produces")
+        "attached": draw(st.integers(0, 3)) == 0,
     }
 
 
@@ -426,6 +459,7 @@ def normal_experiment(ctx):
 
 
 def teardown(ctx):
+    _XP.pop("producer", None)
     xp = _XP.pop("xp", None)
     if xp is not None:
         try:
@@ -501,6 +535,13 @@ def prop_missing(ctx, case):
             kw["ins"] = in_list(holder)
         else:
             kw["dct"] = in_dict(holder)
+    if case.get("attached") and pos not in ("pre-task", "init-task"):
+        if "producer" not in _XP:
+            _COUNTER[0] += 1
+            _XP["producer"] = T(v=_COUNTER[0]).submit()
+            _XP["producer"].__xpm__.task.__xpm__.job.wait()
+        target = holder if pos in ("wrap.inner", "datacfg.data") else bad
+        target.copy_dependencies(_XP["producer"])
     task = T(**kw)
     if pos == "pre-task":
         task.add_pretasks(LW(k=1) if case["valid"] else LW())
@@ -522,6 +563,8 @@ def prop_missing(ctx, case):
         labels.append("missing:under-meta")
     if pos in ("node.nl", "node.dlc", "node.ldc", "node.metanl"):
         labels.append("missing:nested-container")
+    if case.get("attached") and pos not in ("pre-task", "init-task"):
+        labels.append("missing:node-attached-to-a-submitted-task")
     if case["valid"]:
         labels.append("missing:control-valid")
         if raised is not None:
